@@ -100,6 +100,7 @@ BASE_PROFILE = {
     "merge_p": 0.3,
     "dup_labels_p": 0.3,
     "radii_list_p": 0.3,
+    "far_p": 0.08,
 }
 
 PROFILES = {
@@ -135,6 +136,8 @@ PROFILES = {
         "max_samples": 12,
     },
     "c07": {
+        "far_p": 0.0,
+        "obj_tilt_p": 0.1,
         "tasks": {"detection": 1, "tracking": 1},
         "fault_pool": [k for k in FAULT_KINDS if k != "wrong_frame_id"],
         "enable_p": 0.3,
@@ -247,10 +250,17 @@ def _make_world(rng, prof, task):
         else:
             size = tuple(round(b * rng.uniform(0.8, 1.25), 3) for b in base)
         # start pose relative to the ego at the first sample
+        side_by_side = None
         if actors and rng.random() < prof["contested_p"]:
             other = rng.choice(actors)
             ref = next(st for st in other["states"] if st is not None)["pose"]
             p0 = [ref[0] + rng.uniform(-3, 3), ref[1] + rng.uniform(-3, 3), ref[2] + rng.uniform(-0.3, 0.3)]
+            if rng.random() < 0.25:
+                # two of a kind side by side: same class, heading, height and motion, a few decimetres apart
+                side_by_side = other
+                ang = rng.uniform(-math.pi, math.pi)
+                dist = rng.uniform(0.15, 0.9)
+                p0 = [ref[0] + dist * math.cos(ang), ref[1] + dist * math.sin(ang), ref[2]]
         else:
             rel = (rng.uniform(-range_scale, range_scale), rng.uniform(-range_scale, range_scale),
                    rng.uniform(-8, 8) if hilly else rng.uniform(-1, 1))
@@ -267,6 +277,10 @@ def _make_world(rng, prof, task):
         first = 0 if rng.random() < 0.7 else rng.randrange(0, n)
         last = n - 1 if rng.random() < 0.7 else rng.randrange(first, n)
         hole = rng.randrange(first, last + 1) if (last - first >= 2 and rng.random() < 0.1) else None
+        if side_by_side is not None:
+            cat, lab = side_by_side["category"], side_by_side["label"]
+            yaw, v, w = side_by_side["_motion"]
+            size = tuple(side_by_side["size"])
         attrs = [a for a in ATTRS if rng.random() < 0.08]
         tilt_rp = None
         if rng.random() < prof.get("obj_tilt_p", 0.0):
@@ -294,6 +308,7 @@ def _make_world(rng, prof, task):
                 states.append(None)
         actors.append(
             {
+                "_motion": (yaw, v, w),
                 "token": "inst%03d_%s" % (ai, "%08x" % rng.getrandbits(32)),
                 "category": cat,
                 "label": lab,
@@ -302,6 +317,8 @@ def _make_world(rng, prof, task):
                 "states": states,
             }
         )
+    for a in actors:
+        del a["_motion"]
     return {"samples": samples, "actors": actors, "period": period, "timeline": kind}
 
 
@@ -354,8 +371,8 @@ def _thr_spec(rng, n_labels, lo, hi, multi_p, edge=None):
     """A threshold specification in one of the accepted spellings, avoiding the flat-list/per-label ambiguity."""
     n_thr = 1 if rng.random() > multi_p else rng.randint(2, 3)
     vals = sorted(_r(rng.uniform(lo, hi), 3) for _ in range(n_thr))
-    if edge is not None and rng.random() < 0.15:
-        vals[rng.randrange(len(vals))] = edge  # a legal extreme threshold (IoU 0.0: any overlap counts)
+    if edge is not None and rng.random() < (0.15 if edge == 0.0 else 0.08):
+        vals[rng.randrange(len(vals))] = edge  # a legal extreme threshold (IoU 0.0: any overlap counts; distance inf: any distance)
         vals = sorted(set(vals))
         n_thr = len(vals)
     if rng.random() < 0.3:
@@ -364,7 +381,7 @@ def _thr_spec(rng, n_labels, lo, hi, multi_p, edge=None):
     if spelling == "flat" and n_thr != n_labels:
         return list(vals)
     if spelling == "nested_per_label":
-        return [[_r(min(hi, max(lo, v * rng.uniform(0.7, 1.3))), 3) for _ in range(n_labels)] for v in vals]
+        return [[v if math.isinf(v) else _r(min(hi, max(lo, v * rng.uniform(0.7, 1.3))), 3) for _ in range(n_labels)] for v in vals]
     return [[v] for v in vals]
 
 
@@ -463,6 +480,8 @@ def _make_config(rng, prof, world):
             labels[0] = top
     if rng.random() < 0.15:
         labels = [TARGET_ALIAS.get(l, l) if rng.random() < 0.5 else l for l in labels]  # registered alias spellings
+    if task == "fp_validation" and rng.random() < 0.25:
+        labels.insert(rng.randrange(len(labels) + 1), "false_positive")   # the FP label itself may be a target (with its own radius)
     n = len(labels)
     frame = _wchoice(rng, prof["frames"])
     scale = rng.choice([30.0, 60.0, 120.0])
@@ -500,9 +519,9 @@ def _make_config(rng, prof, world):
     thr = {}
     if task != "fp_validation":
         mp = prof["multi_thr_p"]
-        thr["center"] = _thr_spec(rng, n, 0.3, 4.0, mp)
+        thr["center"] = _thr_spec(rng, n, 0.3, 4.0, mp, edge=float("inf"))   # "any distance" is a legal threshold
         if rng.random() < 0.7:
-            thr["plane"] = _thr_spec(rng, n, 0.3, 4.0, mp)
+            thr["plane"] = _thr_spec(rng, n, 0.3, 4.0, mp, edge=float("inf"))
         if rng.random() < 0.6:
             thr["iou2d"] = _thr_spec(rng, n, 0.05, 0.8, mp, edge=0.0)
         if rng.random() < 0.5:
@@ -742,6 +761,9 @@ def make_plan(seed, run, profile_name, clean=None, force=None):
                 "uuid": track_id[ai] if tracking else (None if rng.random() < 0.5 else "det%02d" % ai),
                 "faults": f,
             }
+            if rng.random() < 0.15:
+                # a perception stack may attach attributes to its labels (e.g. when estimates are derived from annotations)
+                o["attrs"] = list(a.get("attrs", [])) or [rng.choice(ATTRS)]
             if rng.random() < 0.3:
                 o["vel"] = [_r(rng.uniform(-10, 10), 2), _r(rng.uniform(-3, 3), 2), 0.0]
             if idn == ai:
